@@ -42,6 +42,7 @@ CONSTANTS
   Sessions,     \* session names
   Legacy,       \* subset of Sessions speaking a pre-2026-07-28 protocol; the others are "modern"
   InitOn,       \* sessions already connected in the initial state
+  InitSub,      \* subset of InitOn: sessions already subscribed to every URI in the initial state
   Kinds,        \* feature kinds ("tools", "prompts", "resources", "templates")
   NotifOf,      \* kind -> list-changed notification name
   Uris,         \* subscribable resources
@@ -111,8 +112,8 @@ Init ==
   /\ cbs = [n \in Notifs |-> 0]
   /\ sess = [s \in Sessions |-> IF s \in InitOn THEN "on" ELSE "new"]
   /\ lsub = [n \in Notifs |-> {s \in InitOn \cap Modern : n \in Want[s] /\ CapOn(n)}]
-  /\ rsub = [u \in Uris |-> {}]
-  /\ usub = [s \in Sessions |-> {}]
+  /\ rsub = [u \in Uris |-> InitSub]
+  /\ usub = [s \in Sessions |-> IF s \in InitSub THEN Uris ELSE {}]
   /\ chan = [s \in Sessions |-> <<>>]
   /\ nq = [s \in Sessions |-> <<>>]
   /\ hnd = [s \in Sessions |-> None]
